@@ -9,6 +9,7 @@ import Gkv.Proofs.TreapSet
 import Gkv.Proofs.TreapDel
 import Gkv.Proofs.FlushFrame
 import Gkv.Proofs.WorldMachine
+import Gkv.Proofs.Cache
 open Std
 
 namespace Gkv.Props.C01
@@ -109,6 +110,28 @@ theorem driver_refines_sorted_maps (s f : Nat) (ops : List Gkv.Machine.SOp)
         Gkv.Machine.absS
       = some (Gkv.Machine.specRun cmpOfName ops).cur :=
   Gkv.world_refines_spec_reset s f ops hok hvalid
+
+/-! ### "interleaved arbitrarily with … EvictSomeItems": the cache is invisible (Model L) -/
+
+open Gkv.Cache in
+/-- Between two mutations a collection is one abstract tree `T` (Model A) seen through a cache
+    (`Model/Cache.lean`: which nodes and items are in memory, with or without their values).  Any
+    history of `GetItem`, `MinItem`, `MaxItem` (with or without values) and `EvictSomeItems` (with
+    any random choices), from ANY cached view of `T`: every call succeeds, answers exactly what
+    Model A's `get`/`min`/`max` answer on `T` (a value is shown whenever asked for, and never a
+    wrong one), and leaves a view of the same `T`. -/
+theorem cache_invisible (f : Bytes) (bound : Nat) (cmp : Bytes → Bytes → Ordering) (fuel : Nat)
+    (T : Tree) (hc : T.Coherent f bound) (hf : T.height < fuel) (ops : List COp) (c : CTree)
+    (hr : Rep c T) :
+    ∃ outs c' rds, runC f cmp fuel ops c = some (outs, c', rds) ∧ Rep c' T ∧ AgreeAll cmp T outs ops := by
+  obtain ⟨outs, c', rds, e, h1, h2, _⟩ := runC_spec f bound cmp fuel T hc hf ops c hr
+  exact ⟨outs, c', rds, e, h1, h2⟩
+
+open Gkv.Cache in
+/-- the two views a store really starts from satisfy the hypothesis: after a mutation everything
+    the mutator built is cached (`ofTree`); after `NewStore` nothing is (`cold`) -/
+theorem views_exist (T : Tree) : Rep (ofTree T) T ∧ (T.Persisted → Rep (cold T) T) :=
+  ⟨rep_ofTree T, rep_cold T⟩
 
 -- non-vacuity: a concrete history with an overwrite and a delete
 example : (([Mut.set ⟨[1], [10], 5⟩, .set ⟨[2], [20], 9⟩, .set ⟨[1], [11], 1⟩, .del [2]] : List Mut).foldl
